@@ -37,7 +37,10 @@ RULE = ("seeded histories of 6-40 operations (Message.get_content strict/lenient
         "response messages x 2-5 bodies (empty, text, compressible, random, near-duplicates, pre-compressed) x codings "
         "{identity,gzip,deflate,br,zstd} in mixed case + unknown/illegal codings x 3-8 raw blobs (reference-encoded at "
         "levels 1/6/9, then intact | truncated | trailing data | bit flip | zlib-as-gzip | raw deflate | garbage | empty); "
-        "values flow between steps (last decoded / last encoded value is re-assigned elsewhere); "
+        "values flow between steps (last decoded / last encoded value is re-assigned elsewhere); 40% of the histories "
+        "end with a 'stream stops short' block: a gzip/zlib/raw-deflate/br/zstd body cut mid-stream or missing only "
+        "(part of) its trailer is read (get_content | encoding.decode | Message.decode), 0-2 other bodies pass through "
+        "the codecs, and what was read is written back (same message | encoding.encode | Message.encode | other message); "
         "non-trivial = at least one cache hit AND one cache miss AND two different actors touched the cache; "
         "distinct = distinct abstract event-log digests")
 COMPONENTS_REAL = ["mitmproxy.net.encoding.encode/decode + _cache", "mitmproxy.http.Message (Request and Response): "
@@ -47,11 +50,18 @@ ASSUMPTIONS = ["two raw bodies are 'the same result' when both decode to the sam
                "decoder (the cache is documented to hand back the original compressed representation)",
                "content codings are case-insensitive; an absent or empty Content-Encoding means identity",
                "for mangled foreign bodies only history independence is demanded, not a particular result",
+               "violation labels only (the demand is the same): emitted bytes the strict reference rejects are attributed to "
+               "the decoder's documented leniencies (gzip: zlib wrapper, stream stops short - upstream issue 7795, data "
+               "after the stream; deflate: header-less deflate, data after the stream; empty body) or, for any other "
+               "accepted invalid stream, reported as invalid_stream_accepted_and_reemitted",
                "'fresh process' is emulated by swapping encoding._cache for an empty entry around the shadow execution and "
                "restoring the very same tuple object afterwards"]
 EXPECTED_PROBES = ["cache_hit_decode", "cache_hit_encode", "cache_miss", "cross_actor_hit", "lenient_decode",
                    "invalid_rejected", "unknown_coding", "mixed_case", "te_present_set", "set_none", "empty_body",
-                   "msg_decode", "msg_encode", "roundtrip_checked", "last_value_reassigned"]
+                   "msg_decode", "msg_encode", "roundtrip_checked", "last_value_reassigned",
+                   "short_read_truncate", "short_read_cut_tail", "short_read_raw_truncate", "short_read_raw_cut_tail",
+                   "short_read_accepted", "short_write_adjacent", "short_write_interleaved",
+                   "short_write_after_accepted_read", "short_write_from_cache"]
 
 SUPPORTED = ("identity", "gzip", "deflate", "br", "zstd")
 CACHED = ("gzip", "deflate", "deflateraw", "br", "zstd")
@@ -65,6 +75,24 @@ SPELL = {
 OTHER_CODINGS = ["x-unknown", "compress", "", "utf-8", "hex", "none", "deflateraw", "gzip, br", "latin-1"]
 ERRORS = ["strict", "strict", "strict", "replace", "ignore"]
 MANGLES = ["truncate", "trailing", "flip", "zlib_for_gzip", "raw_for_deflate", "garbage", "empty"]
+# extra mangles used only by the "stream that stops short" block (rng site c31-trunc):
+#   cut_tail      reference stream minus its last `drop` octets (only the trailer / the end of the final block is lost)
+#   raw_truncate  header-less deflate stream cut mid-stream          raw_cut_tail  header-less deflate minus `drop` octets
+TRAILER_MAX = {"gzip": 8, "deflate": 4, "br": 1, "zstd": 4}
+
+# Invalid input that mitmproxy's decoders accept BY DESIGN on the reference tree (shape() labels per coding):
+#   gzip:    zlib auto-detection (decode_gzip docstring: "gzip or zlib-compressed data"), streams that stop short are
+#            decoded to what is there (upstream issue 7795), octets after the end of the stream are ignored;
+#   deflate: header-less deflate (decode_deflate docstring), octets after the end of the stream are ignored;
+#   any:     an empty body decodes to empty content.
+# These are the situations the open finding F17 (cache entry written by decode() for such a body) is about.  A decode()
+# that accepts any OTHER stream the strict reference rejects, and whose bytes are then emitted again, is a different
+# failure (a different root cause) and gets its own class.
+DOCUMENTED_LENIENCY = {
+    "gzip": ("truncated", "zlib_wrapped", "zlib_wrapped_truncated", "trailing_data"),
+    "deflate": ("raw_deflate", "trailing_data", "raw_deflate_trailing_data"),
+    "deflateraw": ("trailing_data", "raw_deflate_trailing_data"),
+}
 
 
 def S(b: bytes) -> str:
@@ -104,6 +132,79 @@ def _gen_bodies(r, n):
         if b not in out:
             out.append(b)
     return out or [b"x"]
+
+
+def _short_stream_block(rt, bodies, blobs, messages, ops):
+    """The peer went away inside a compressed body (or only its trailer got lost): a message holds a stream that stops
+    short.  After the arbitrary history: read it (get_content / encoding.decode / Message.decode), let zero to two other
+    bodies pass through the codecs, then write back what was read (msg.content = msg.content, encoding.encode of that
+    content, Message.encode after Message.decode, or assignment to another message).  Own rng site: the scenarios of
+    the main generator keep their shape, this block only appends blobs, messages and operations."""
+    if rt.random() >= 0.4:
+        return
+    coding = rt.choice(["deflate", "deflate", "deflate", "deflate", "gzip", "br", "zstd"])
+    if coding == "deflate":
+        form = rt.choice(["truncate", "cut_tail", "raw_truncate", "raw_cut_tail"])
+    else:
+        form = rt.choice(["truncate", "cut_tail"])
+    big = [i for i, b in enumerate(bodies) if len(b) >= 8] or list(range(len(bodies)))
+    blobs.append({"body": rt.choice(big), "coding": coding, "level": rt.choice([1, 6, 9]), "mangle": form,
+                  "cut": rt.randrange(150, 960), "junk": "",
+                  "drop": 1 if form == "raw_cut_tail" else rt.randrange(1, TRAILER_MAX[coding] + 1)})
+    kb = len(blobs) - 1
+    oc = rt.choice([coding, coding, "gzip", "deflate", "br", "zstd"])
+    blobs.append({"body": rt.randrange(len(bodies)), "coding": oc, "level": 1, "mangle": None})   # some other flow
+    ko = kb + 1
+    ce = rt.choice(SPELL[coding])
+    if rt.random() < 0.6 or not messages:
+        messages.append({"kind": rt.choice(["response", "request"]), "ce": ce, "te": rt.random() < 0.1, "cl": True,
+                         "blob": kb})
+        mi = len(messages) - 1
+    else:
+        mi = rt.randrange(len(messages))
+        ops.append({"op": "set_raw", "m": mi, "blob": kb})
+        ops.append({"op": "set_ce", "m": mi, "coding": ce})
+    others = [j for j in range(len(messages)) if j != mi]
+    mj = rt.choice(others) if others else None
+    x = rt.random()
+    if x < 0.5:
+        read = {"op": "get", "m": mi, "strict": rt.random() < 0.85}
+    elif x < 0.75:
+        read = {"op": "dec", "src": {"raw_of": mi}, "coding": ce, "errors": "strict"}
+    else:
+        read = {"op": "decode", "m": mi, "strict": True}
+    read["tag"] = "short_read_" + form
+    z = rt.random()
+    if read["op"] == "decode":
+        # decode() dropped the header: the write-back is Message.encode / encoding.encode of the decoded content
+        write = ({"op": "encode", "m": mi, "coding": ce} if z < 0.7 else
+                 {"op": "enc", "src": {"last": True}, "coding": ce, "errors": "strict"})
+    elif z < 0.55:
+        write = {"op": "set", "m": mi, "src": {"last": True}, "readback": True}
+    elif z < 0.75:
+        write = {"op": "enc", "src": {"last": True}, "coding": ce, "errors": "strict"}
+    elif z < 0.92 and mj is not None:
+        ops.append({"op": "set_ce", "m": mj, "coding": ce})
+        write = {"op": "set", "m": mj, "src": {"last": True}, "readback": rt.random() < 0.5}
+    else:
+        write = {"op": "set", "m": mi, "src": {"last": True}, "readback": False}
+    ops.append(read)
+    between = rt.choice([0, 0, 0, 1, 1, 2])
+    for _ in range(between):
+        y = rt.random()
+        if y < 0.45:      # evicts the cache entry, the value read above stays the "last" value
+            ops.append({"op": "enc", "src": {"body": rt.randrange(len(bodies))}, "coding": rt.choice(SPELL[oc]),
+                        "errors": "strict"})
+        elif y < 0.8:     # another flow is decoded (and becomes the "last" value)
+            ops.append({"op": "dec", "src": {"blob": ko}, "coding": rt.choice(SPELL[oc]), "errors": "strict"})
+        elif mj is not None:
+            ops.append({"op": "get", "m": mj, "strict": True})
+        else:
+            ops.append({"op": "enc", "src": {"blob": ko}, "coding": ce, "errors": "strict"})
+    write["tag"] = "short_write_adjacent" if not between else "short_write_interleaved"
+    ops.append(write)
+    if rt.random() < 0.3:
+        ops.append({"op": "get", "m": mi, "strict": True})
 
 
 def generate(rng, tier):
@@ -183,6 +284,7 @@ def generate(rng, tier):
             else:
                 s = {"raw_of": m}
             ops.append({"op": "dec", "src": s, "coding": spelled(r), "errors": r.choice(ERRORS)})
+    _short_stream_block(rng.at("c31-trunc"), bodies, blobs, messages, ops)
     return {"family": "focus-" + (focus or "mixed") + ("-faulty" if p_mangle else "-clean"),
             "bodies": [S(b) for b in bodies], "blobs": blobs, "messages": messages, "ops": ops}
 
@@ -318,13 +420,20 @@ def make_blob(bl, bodies) -> bytes:
     if m == "raw_for_deflate":
         co = zlib.compressobj(lvl, zlib.DEFLATED, -15)
         return co.compress(body) + co.flush()
-    raw = ref_encode(c, body, lvl)
+    if m in ("raw_truncate", "raw_cut_tail"):
+        co = zlib.compressobj(lvl, zlib.DEFLATED, -15)
+        raw = co.compress(body) + co.flush()
+    else:
+        raw = ref_encode(c, body, lvl)
     if not m:
         return raw
     cut = bl.get("cut", 500)
     junk = B(bl.get("junk", "\x00"))
-    if m == "truncate":
+    if m in ("truncate", "raw_truncate"):
         return raw[: len(raw) * cut // 1000]
+    if m in ("cut_tail", "raw_cut_tail"):
+        n = min(int(bl.get("drop", 1)), len(raw) - 1)     # at least one octet stays
+        return raw[:-n] if n > 0 else raw
     if m == "trailing":
         return raw + junk
     if m == "flip":
@@ -361,7 +470,7 @@ def shape(coding: str, raw: bytes) -> str:
         if d.unused_data:
             return "trailing_data"
         return "other"
-    if coding == "deflate":
+    if coding in ("deflate", "deflateraw"):
         try:
             d = zlib.decompressobj()
             d.decompress(raw)
@@ -560,6 +669,7 @@ def _run(sc, E, EMPTY, bodies, blob_specs, blobs, bad, probe, faults, log, state
                 faults[m] = faults.get(m, 0) + 1
 
     cur = {"pre_cache": None, "filled_by": None}
+    short_read = {"ok": False}
 
     def poisoned_encode(c, raw_m, what):
         """mitmproxy emitted bytes the strict reference rejects, although a fresh cache yields a valid stream"""
@@ -569,6 +679,16 @@ def _run(sc, E, EMPTY, bodies, blob_specs, blobs, bad, probe, faults, log, state
         else:
             via = "not_the_cache_entry"
         sh = shape(c, raw_m)
+        if via == "cache_entry_written_by_decode" and sh != "empty" and sh not in DOCUMENTED_LENIENCY.get(c, ()):
+            # decode() took a stream that neither the strict reference nor the documented leniencies of this decoder
+            # accept, and the write-back of what it returned puts those bytes on the wire again
+            bad("invalid_stream_accepted_and_reemitted", {"coding": c, "accepted": sh},
+                f"{what}: mitmproxy emitted {len(raw_m)} bytes for coding {c!r} that a strict {c} decoder rejects ({sh}): "
+                f"an earlier decode() accepted this invalid stream (not one of the decoder's documented leniencies), "
+                f"cached (stream -> content), and the write-back of that content was answered from the cache; the "
+                f"same call with an empty cache emits a valid {c} stream, so the result also depends on which bodies "
+                f"passed through the codecs in between")
+            return
         bad("poisoned_encode", {"coding": c, "shape": sh, "via": via},
             f"{what}: mitmproxy emitted {len(raw_m)} bytes for coding {c!r} that a strict {c} decoder rejects ({sh}); "
             f"they are the `encoded` half of the shared cache entry ({via}) left behind by an earlier call on an invalid "
@@ -884,6 +1004,18 @@ def _run(sc, E, EMPTY, bodies, blob_specs, blobs, bad, probe, faults, log, state
                         f"{what}: Content-Length is {post['cl']!r}, raw body has {len(post['raw'])} bytes")
             log.append((i, k, j, out_m[0], _h(out_m[1]) if out_m[0] == "ok" else out_m[1],
                         post["ce"], post["cl"], _h(post["raw"])))
+        # ---- "stream stops short" block: how often each situation was really executed (probes only) -
+        tag = op.get("tag")
+        if tag:
+            probe(tag)
+            if tag.startswith("short_read_"):
+                short_read["ok"] = out_m[0] == "ok" and bool(op.get("strict", True))
+                if short_read["ok"]:
+                    probe("short_read_accepted")
+            elif short_read["ok"]:
+                probe("short_write_after_accepted_read")
+                if ctl["hits"] > h0:
+                    probe("short_write_from_cache")
         # ---- cache ownership bookkeeping (probes only) --------------------------------------------
         if ctl["hits"] > h0 and cache_owner[0] is not None and cache_owner[0] != actor:
             probe("cross_actor_hit")
